@@ -104,12 +104,7 @@ func (obj HashTable) LoadForm() Object {
 		List{List{tsym, List{Symbol("make-hash-table")}}},
 	}
 	for k, v := range obj {
-		switch k.(type) {
-		case Symbol:
-			form = append(form, List{Symbol("setf"), List{Symbol("gethash"), List{quoteSymbol, k}, tsym}, v})
-		case String, Number, nil:
-			form = append(form, List{Symbol("setf"), List{Symbol("gethash"), k, tsym}, v})
-		}
+		form = append(form, List{Symbol("setf"), List{Symbol("gethash"), ValueLoadForm(k), tsym}, ValueLoadForm(v)})
 	}
 	form = append(form, Symbol("table"))
 
